@@ -30,7 +30,7 @@ func init() {
 		Tech:        "static analysis: struct tags and constants from go/types, constant-folded format strings, slice-shape agreement of writer and reader on SSA, struct-to-struct field mapping",
 		NeedU1:      true,
 		NeedU2:      true,
-		Rules:       []func(*Ctx){ruleC01LatestFetchedUnderOwnID, ruleC06IDFlowsUnmodified, ruleC18Tags, ruleC18GCMLayout, ruleC18KeyIDs, ruleC18KeyIDOperands, ruleC01ProvenanceEncrypt, ruleC01NoExtraGateOnRead, ruleC13FieldFidelity, ruleC13RecordLiteralsComplete, ruleC13KeyFidelity, ruleC18IDsAreDataNotPatterns, ruleC18WrappersKeepOptionalInterfaces, ruleC18RegionSuffixResolvedOnEveryPath, ruleC18ProtoMapping, ruleC18RegionSuffixIsTheConfiguredRegion, ruleC13SidecarMetastoreWiring},
+		Rules:       []func(*Ctx){ruleC01LatestFetchedUnderOwnID, ruleC06IDFlowsUnmodified, ruleC18Tags, ruleC18GCMLayout, ruleC18KeyIDs, ruleC18KeyIDOperands, ruleC01ProvenanceEncrypt, ruleC01NoExtraGateOnRead, ruleC13FieldFidelity, ruleC13RecordLiteralsComplete, ruleC13KeyFidelity, ruleC18IDsAreDataNotPatterns, ruleC18WrappersKeepOptionalInterfaces, ruleC18RegionSuffixResolvedOnEveryPath, ruleC18ProtoMapping, ruleC18RegionSuffixIsTheConfiguredRegion, ruleC13SidecarMetastoreWiring, ruleC18SidecarNamesVerbatim},
 	})
 }
 
@@ -166,8 +166,15 @@ func ruleC18GCMLayout(c *Ctx) {
 		bi, isB := cv.Call.Value.(*ssa.Builtin)
 		return isB && bi.Name() == "len" && resolve(cv.Call.Args[0]) == resolve(of)
 	}
-	// Encrypt
+	// Encrypt (the seal step may sit in a helper of the package: the layout is judged there, and Encrypt must hand
+	// back what the helper returns)
 	{
+		outer := enc
+		enc, encVia, encData := aeadStepHost(outer, "Seal")
+		if enc == nil {
+			enc, encVia, encData = outer, nil, 1
+		}
+		c.FuncsAnalysed[shortName(enc)] = true
 		var buf *ssa.MakeSlice
 		allInstrs(enc, func(i ssa.Instruction) {
 			if m, ok := i.(*ssa.MakeSlice); ok {
@@ -179,7 +186,7 @@ func ruleC18GCMLayout(c *Ctx) {
 			problems = append(problems, "no output buffer allocation")
 		} else {
 			// size = len(data) + 16 + 12 (constant-folded: len(data) + 28 or chain of adds)
-			sum, hasLen := addChain(buf.Len, enc)
+			sum, hasLen := addChain(buf.Len, enc, encData)
 			if !hasLen || sum != 28 {
 				problems = append(problems, fmt.Sprintf("output buffer is not len(data)+tag+nonce (constant part %d, documented 28)", sum))
 			}
@@ -201,7 +208,7 @@ func ruleC18GCMLayout(c *Ctx) {
 				if non == nil || resolve(non.X) != ssa.Value(buf) || non.High != nil || !isLenMinusNonce(non.Low, buf) {
 					problems = append(problems, "nonce is not the last NonceSize bytes of the output buffer")
 				}
-				if !isParamNamed(seal.Call.Args[2], enc, 1) || !isNilConst(strip(seal.Call.Args[3])) {
+				if encData < 0 || !isParamNamed(seal.Call.Args[2], enc, encData) || !isNilConst(strip(seal.Call.Args[3])) {
 					problems = append(problems, "Seal plaintext/additional-data operands changed (documented: payload, no AAD)")
 				}
 				// FillRandom on the same region dominates Seal
@@ -217,19 +224,45 @@ func ruleC18GCMLayout(c *Ctx) {
 					problems = append(problems, "the nonce region is not filled by FillRandom before Seal")
 				}
 				// the returned value is the buffer
-				for _, r := range returnsOf(enc) {
-					if isNilValue(returnedValue(r, 1)) && resolve(returnedValue(r, 0)) != ssa.Value(buf) {
-						problems = append(problems, "Encrypt does not return the ciphertext‖tag‖nonce buffer")
+				if encVia == nil {
+					for _, r := range returnsOf(enc) {
+						if isNilValue(returnedValue(r, 1)) && resolve(returnedValue(r, 0)) != ssa.Value(buf) {
+							problems = append(problems, "Encrypt does not return the ciphertext‖tag‖nonce buffer")
+						}
+					}
+				} else {
+					for _, r := range returnsOf(enc) {
+						if resolve(returnedValue(r, 0)) != ssa.Value(buf) {
+							problems = append(problems, "the seal helper does not return the ciphertext‖tag‖nonce buffer")
+						}
+					}
+					for _, r := range returnsOf(outer) {
+						if !isNilValue(returnedValue(r, 1)) {
+							continue
+						}
+						got := resolve(returnedValue(r, 0))
+						if ex, isEx := got.(*ssa.Extract); isEx && ex.Index == 0 {
+							got = ex.Tuple
+						}
+						if got != ssa.Value(encVia) {
+							problems = append(problems, "Encrypt does not return the seal helper's ciphertext‖tag‖nonce buffer")
+						}
 					}
 				}
 			}
 		}
-		c.check(len(problems) == 0, "aead.cryptoFunc.Encrypt/layout", u.pos(enc.Pos()), "ciphertext ‖ 16-byte tag ‖ 12-byte random nonce", strings.Join(problems, "; "))
+		c.check(len(problems) == 0, "aead.cryptoFunc.Encrypt/layout", u.pos(outer.Pos()), "ciphertext ‖ 16-byte tag ‖ 12-byte random nonce", strings.Join(problems, "; "))
 	}
 	// Decrypt
 	{
 		var problems []string
 		var open *ssa.Call
+		outerDec := dec
+		dec, _, decData := aeadStepHost(outerDec, "Open")
+		if dec == nil || decData < 0 {
+			dec, decData = outerDec, 1
+		}
+		c.FuncsAnalysed[shortName(dec)] = true
 		allInstrs(dec, func(i ssa.Instruction) {
 			cc := callOf(i)
 			if cc != nil && cc.IsInvoke() && cc.Method.Name() == "Open" {
@@ -239,7 +272,7 @@ func ruleC18GCMLayout(c *Ctx) {
 		if open == nil {
 			problems = append(problems, "no Open call")
 		} else {
-			data := dec.Params[1]
+			data := dec.Params[decData]
 			non, _ := strip(open.Call.Args[1]).(*ssa.Slice)
 			ct, _ := strip(open.Call.Args[2]).(*ssa.Slice)
 			if non == nil || resolve(non.X) != ssa.Value(data) || non.High != nil || !isLenMinusNonce(non.Low, data) {
@@ -252,7 +285,8 @@ func ruleC18GCMLayout(c *Ctx) {
 				problems = append(problems, "additional data is not nil")
 			}
 		}
-		c.check(len(problems) == 0, "aead.cryptoFunc.Decrypt/layout", u.pos(dec.Pos()), "reads nonce from the tail, ciphertext‖tag from the head", strings.Join(problems, "; "))
+		c.check(len(problems) == 0, "aead.cryptoFunc.Decrypt/layout", u.pos(outerDec.Pos()), "reads nonce from the tail, ciphertext‖tag from the head", strings.Join(problems, "; "))
+		dec = outerDec
 		// minimum length: the only length-based rejection is `len(data) < NonceSize()` (or < NonceSize()+Overhead()): the
 		// ciphertext of an empty payload (tag ‖ nonce, 28 bytes) must be accepted
 		data := dec.Params[1]
@@ -350,24 +384,24 @@ func isConstInt(v ssa.Value, want int64) bool {
 }
 
 // addChain: v = len(data) + c1 + c2 … → (sum of constants, saw len(param #1)).
-func addChain(v ssa.Value, f *ssa.Function) (int64, bool) {
+func addChain(v ssa.Value, f *ssa.Function, dataIdx int) (int64, bool) {
 	v = resolve(v)
 	if k, ok := constOf(v); ok {
 		n, _ := constantInt64(k)
 		return n, false
 	}
 	if cv, ok := v.(*ssa.Call); ok {
-		if bi, isB := cv.Call.Value.(*ssa.Builtin); isB && bi.Name() == "len" && isParamNamed(cv.Call.Args[0], f, 1) {
+		if bi, isB := cv.Call.Value.(*ssa.Builtin); isB && bi.Name() == "len" && dataIdx >= 0 && isParamNamed(cv.Call.Args[0], f, dataIdx) {
 			return 0, true
 		}
 	}
 	if b, ok := v.(*ssa.BinOp); ok && b.Op == token.ADD {
-		a, la := addChain(b.X, f)
-		c2, lb := addChain(b.Y, f)
+		a, la := addChain(b.X, f, dataIdx)
+		c2, lb := addChain(b.Y, f, dataIdx)
 		return a + c2, la || lb
 	}
 	if cv, ok := v.(*ssa.Convert); ok {
-		return addChain(cv.X, f)
+		return addChain(cv.X, f, dataIdx)
 	}
 	return -1 << 40, false
 }
